@@ -31,6 +31,7 @@ func runC15(c *Ctx) {
 	c.shared("R12", "C11/R2", "contains agrees with == on every element: where == has no answer (a scalar against a container) Equals hands the comparison's error on, it does not answer false", func(o Obligation) bool { return strings.HasPrefix(o.Key, "(*lang.Value).Equals ") }, func(s *Ctx) { c11R2(s, "R2") })
 	c.shared("R13", "C09/R1", "an index read leaves the list alone, null elements included: the read arms of the evaluator store through an operand only to auto-vivify an unset variable (a null element turned into an array by `q[0][0]` is no longer found by contains(null))", keyHas("operand-store"), c09R1)
 	c.shared("R14", "C01/R7", "every array has the array methods however it came to be: each construction of an array value sets the array prototype (an array born from an index write included)", keyHas("value-literal ValueArray"), func(s *Ctx) { payloadUnderTag(s, "R7") })
+	c.shared("R15", "C09/R6", "an index write stores whatever is written, null included, and lands in the array that is there: the assignment always reaches the store, and a container created meanwhile by the right-hand side is found as the place itself, not as a copy", keyHas("assignment-always-stores", "parent-relook"), c09R6)
 	c.shared("R11", "C05/R8", "sort orders an array that is not all numbers by string form: the string form of each kind is the documented one (booleans, null, containers have the empty form)", keyHas("String results", "String guard"), c05Coercions)
 	c.shared("R9", "C10/R6", "the contents of an array are what was written into it: every evaluation of an array literal builds cells of its own — nothing evaluated earlier is remembered in the evaluator or the syntax tree and handed out again", keyHas("evaluator-state", "syntax-tree-store", "interpreter-state"), func(s *Ctx) { interpreterState(s, "R6") })
 	c.shared("R10", "C04/R15", "an index write changes one element: every element of a decoded array (nulls included) gets a cell of its own", keyHas("value-construction"), func(s *Ctx) { newValueTable(s, "R15") })
